@@ -419,6 +419,22 @@ func pageAll(limit uint64, call func(*query.PageRequest) ([]string, *query.PageR
 	if pr != nil {
 		total = int64(pr.Total)
 	}
+	// the same listing in reverse order must be the mirror image
+	rev, _, err := call(&query.PageRequest{Limit: 1 << 20, Reverse: true})
+	if err != nil {
+		return nil, 0, fmt.Errorf("reverse listing: %w", err)
+	}
+	if len(rev) != len(all) {
+		return all, -1, fmt.Errorf("reverse listing has %d items, forward listing %d", len(rev), len(all))
+	}
+	for i := range rev {
+		if rev[i] != all[len(all)-1-i] {
+			return all, -1, fmt.Errorf("reverse listing is not the mirror image of the forward listing at position %d", i)
+		}
+	}
+	// (an offset > 0 is not compared: the SDK's filtered pagination, which the module delegates to,
+	// skips `offset` stored entries before filtering, so a page of a filtered listing is not a
+	// slice of that listing - SDK semantics, not the module's)
 	return all, total, nil
 }
 
